@@ -11,6 +11,54 @@ from .errors import AnalysisError
 PKG = "torchsde"
 
 
+_LOG_METHODS = {"debug", "info", "warning", "warn", "error", "exception", "critical", "log"}
+
+
+class _Normaliser(ast.NodeTransformer):
+    """Syntax that has no bearing on any property is normalised away when a module is loaded, so that every rule sees
+    one form: an annotated assignment with a value is a plain assignment (a bare annotation is dropped), and logging /
+    print statements are `pass`.  Line numbers are kept."""
+
+    def __init__(self, loggers):
+        self.loggers = loggers
+
+    def visit_AnnAssign(self, node):
+        self.generic_visit(node)
+        if node.value is None:
+            return ast.copy_location(ast.Pass(), node)
+        return ast.copy_location(ast.Assign(targets=[node.target], value=node.value), node)
+
+    def visit_Expr(self, node):
+        v = node.value
+        if isinstance(v, ast.Call):
+            f = v.func
+            if isinstance(f, ast.Name) and f.id == "print":
+                return ast.copy_location(ast.Pass(), node)
+            if isinstance(f, ast.Attribute) and f.attr in _LOG_METHODS:
+                recv = f.value
+                root = recv
+                while isinstance(root, (ast.Attribute, ast.Call)):
+                    root = root.func if isinstance(root, ast.Call) else root.value
+                if isinstance(root, ast.Name) and (root.id == "logging" or root.id in self.loggers):
+                    return ast.copy_location(ast.Pass(), node)
+        return self.generic_visit(node)
+
+
+def _normalise(tree):
+    loggers = set()
+    for st in tree.body:
+        tgt, val = None, None
+        if isinstance(st, ast.Assign) and len(st.targets) == 1 and isinstance(st.targets[0], ast.Name):
+            tgt, val = st.targets[0].id, st.value
+        elif isinstance(st, ast.AnnAssign) and isinstance(st.target, ast.Name) and st.value is not None:
+            tgt, val = st.target.id, st.value
+        if tgt and isinstance(val, ast.Call) and ast.unparse(val.func) in ("logging.getLogger", "getLogger"):
+            loggers.add(tgt)
+    tree = _Normaliser(loggers).visit(tree)
+    ast.fix_missing_locations(tree)
+    return tree
+
+
 class ModuleInfo:
     def __init__(self, name, path, relpath, src, is_package):
         self.name = name
@@ -18,7 +66,7 @@ class ModuleInfo:
         self.relpath = relpath
         self.src = src
         self.is_package = is_package
-        self.tree = ast.parse(src, filename=path)
+        self.tree = _normalise(ast.parse(src, filename=path))
         self.lines = src.splitlines()
         self.imports = {}      # alias -> ('module', modname) | ('symbol', modname, name) | ('external', dotted)
         self.classes = {}      # name -> ClassInfo
